@@ -40,3 +40,12 @@ package randdata
 //@   requires ty != nil && (forall i int :: 0 <= i && i < len(ty.Fields) ==> ty.Fields[i].Field != nil)
 //@   modifies *
 //@   loop ty.Fields.1 endassert !field.Field.Exported() || field.Tag.Get("gomacro-data") == "ignore" ==> fieldsCode == athead(fieldsCode) && decls == athead(decls)
+
+// the identifier of a named type without type arguments: its name when it is declared in the target PACKAGE
+// (identity of the package, not of its name), the name prefixed by (at most three letters of) its package name otherwise
+//@ func functionIDBasicOrNamed
+//@   props C15
+//@   nosafety
+//@   ensures is(ty, *types.Named) && as(ty, *types.Named).TypeArgs().Len() == 0 && as(ty, *types.Named).Obj().Pkg() == ctx.targetPackage ==> result == as(ty, *types.Named).Obj().Name()
+//@   ensures is(ty, *types.Named) && as(ty, *types.Named).TypeArgs().Len() == 0 && as(ty, *types.Named).Obj().Pkg() != ctx.targetPackage && len(as(ty, *types.Named).Obj().Pkg().Name()) >= 3 ==> result == as(ty, *types.Named).Obj().Pkg().Name()[:3] + "_" + as(ty, *types.Named).Obj().Name()
+//@   loop typeParams.Len().1 invariant typeParams.Len() == 0 ==> name == before(name)
